@@ -79,23 +79,20 @@ func (v *Vue) evalTemplate(ctx VueContext, nodes []*html.Node, componentData map
 			}
 		}
 
-		// Evaluate v-html if attribute is provided
-		if err := v.evalVHtml(ctx, nodes[0]); err != nil {
-			return nil, err
-		}
-
-		// Check if v-html was evaluated (internal attribute set)
-		hasVHtml := false
-		for _, attr := range node.Attr {
-			if attr.Key == "data-v-html-content" {
-				hasVHtml = true
-				break
+		// Evaluate v-html if attribute is provided - on a copy: the template node may be
+		// evaluated again (loop bodies, slot content used several times, cached components),
+		// and every use must yield a node of its own carrying its own content.
+		if helpers.GetAttr(node, "v-html") != "" {
+			evaluated := helpers.ShallowCloneWithAttrs(node)
+			if err := v.evalVHtml(ctx, evaluated); err != nil {
+				return nil, err
 			}
-		}
 
-		// If v-html was evaluated, return the template node for rendering to output its content
-		if hasVHtml {
-			return nodes, nil
+			// If v-html was evaluated (internal attribute set), return the copy for rendering
+			// to output its content
+			if helpers.HasAttr(evaluated, "data-v-html-content") {
+				return []*html.Node{evaluated}, nil
+			}
 		}
 
 		// Evaluate attributes and set them in current scope
